@@ -457,6 +457,11 @@ func racePhase(rep *report, seed uint64, models, nops, only int, scratch string)
 			rep.counters["race_models_with_out_of_range_timings"]++
 		}
 		shared := sharedness(w)
+		// PRELUDE of FAILING read-only calls in this process, before any concurrent round: exports and
+		// saves into failing writers, lookups of unknown ids / names.  An error path that leaves
+		// process-global or model state behind (a pooled exporter released twice, a hint left set)
+		// only shows in the calls that FOLLOW it.
+		failingPrelude(rep, w)
 		for _, T := range threadCounts {
 			lists := make([][]roOp, T)
 			exportsInRound := 0
@@ -471,6 +476,10 @@ func racePhase(rep *report, seed uint64, models, nops, only int, scratch string)
 				gr := r.fork(uint64(g + 1))
 				for k := 0; k < per; k++ {
 					op := t.genOp(gr)
+					if k == 0 && g < 3 {
+						// several goroutines start with ExportToMarkdown (after the failing prelude)
+						op = roOp{free: 2, desc: "ExportToMarkdown(net)", class: "ExportToMarkdown"}
+					}
 					if op.free != 0 {
 						exportsInRound++
 					}
@@ -689,6 +698,38 @@ func errorPathStorm(rep *report, w *world, r *rng, idx int, roots []any) {
 			rep.fail("errorpath-storm-result", fmt.Sprintf("model=%d %s", idx, b))
 		}
 	}
+}
+
+func failingPrelude(rep *report, w *world) {
+	safe := func(f func()) {
+		defer func() { recover() }()
+		f()
+	}
+	for mode := 0; mode < 12; mode += 3 {
+		mode := mode
+		safe(func() { acmelib.ExportToMarkdown(w.net, newFailWriter(0, mode)) })
+		safe(func() {
+			acmelib.SaveNetwork(w.net, acmelib.SaveEncoding(7), newFailWriter(0, mode), newFailWriter(1, mode), newFailWriter(2, mode))
+		})
+		safe(func() { acmelib.ExportBus(newFailWriter(0, mode), w.buses[mode%len(w.buses)]) })
+	}
+	for _, e := range w.enums {
+		e := e
+		safe(func() { e.GetValue("no-such-value") })
+	}
+	for _, n := range w.nodes {
+		n := n
+		safe(func() { n.GetAttributeAssignment("no-such-attribute") })
+	}
+	for _, b := range w.buses {
+		b := b
+		safe(func() { b.GetNodeInterfaceByNodeName("no such node") })
+	}
+	for _, m := range w.msgs {
+		m := m
+		safe(func() { m.GetSignalByName("no such signal") })
+	}
+	rep.counters["failing_preludes"]++
 }
 
 // sharedness: buses share at least one node, and some type / enum / attribute / builder is used
